@@ -6,6 +6,7 @@ random layouts obeying the glue conditions, and the canonical dump of a mirror t
 same text `pydump.module` prints for the implementation's tree and `Dump.module` for the
 model's).  Every random choice comes from the `random.Random` passed in.
 """
+import copy
 import random
 from dataclasses import dataclass, field
 from typing import List, Optional
@@ -490,6 +491,14 @@ ANAMES = ["x", "y", "z", "a", "b", "key", "value", "p", "t", "s", "n", "other", 
 TPNAMES = ["T", "U", "V", "POSE", "POINT", "ARG", "N", "D", "CAL"]
 ENUMERATORS = ["Red", "Green", "Blue", "A", "B", "C", "Dog", "Cat", "kOne", "kTwo", "X", "Y", "SGD", "NONE"]
 DUNDERS = ["len", "contains", "iter"]
+# identifiers that begin with, end in or contain a keyword / token of the dialect
+KWLIKE_UPPER = ["Classification", "StructureType", "ConstPtr", "Templated", "Typedefs", "Enumerate", "VirtualBase", "Pairs",
+                "Operators", "StaticPool", "NamespaceId", "Include", "This_", "Thistle", "Unsigned", "Voidness", "Std",
+                "classification", "classKind", "structure_type", "structural", "constants", "enumeration", "virtualBase",
+                "templated", "pairwise", "operatorTable", "staticPool", "namespaceId", "includes", "typedefs"]
+KWLIKE_LOWER = ["classification", "structure_type", "classKind", "structural", "constant", "const_", "staticValue", "enumerate",
+                "enum_", "virtual_", "templateArg", "typedef_", "namespace_", "pair_", "operators", "operator_", "include",
+                "unsigned_", "chars", "void_", "std_", "This_", "class_", "struct_", "size_type", "doubles", "interior"]
 
 
 class Cfg:
@@ -522,6 +531,13 @@ class Cfg:
         self.extra_kinds = []         # declaration kinds to favour
         self.matlab_safe = False      # avoid names that trigger known MATLAB-generator defects (x_set_y)
         self.unique_ns = False        # no two sibling namespaces share a name (no re-opened namespaces)
+        self.p_dup_typedef = 0.0     # chance that a typedef repeats the previous typedef's instantiation under another name
+        self.p_serialize = 0.0       # chance that a class gets `void serialize() const;` (boost serialization hooks)
+        self.matlab_ignore = False   # (read by streams.matlab_case) put namespaced classes on the MATLAB ignore list
+        self.p_twin_arg = 0.0        # chance that an argument repeats an earlier templated argument type with other inner qualifiers
+        self.p_kwlike = 0.0          # chance that a name starts with / contains a keyword of the dialect (classification, structure_t, …)
+        self.ns_pool = None          # namespace names are drawn from this pool (small pool = re-opened namespaces)
+        self.n_typedefs = None       # number of typedefs added by gen_module_inst (default: 0-4)
         self.mnames = None           # pool of method / function names (default MNAMES)
         self.c02_safe = False        # stay inside the guard of C02_inst_eq_subst_partial (see Props/C02.lean)
         self.__dict__.update(kw)
@@ -544,12 +560,18 @@ class Gen:
         return "%s%d" % (base, self.counter) if self.rng.random() < 0.5 else base
 
     def cname(self):
+        if self.cfg.p_kwlike and self.rng.random() < self.cfg.p_kwlike:
+            return self.rng.choice(KWLIKE_UPPER)
         return self.rng.choice(self.cfg.class_pool or UPPER)
 
     def nsname(self):
-        return self.rng.choice(LOWER)
+        if self.cfg.p_kwlike and self.rng.random() < self.cfg.p_kwlike:
+            return self.rng.choice(KWLIKE_LOWER)
+        return self.rng.choice(self.cfg.ns_pool or LOWER)
 
     def ident(self, pool):
+        if self.cfg.p_kwlike and self.rng.random() < self.cfg.p_kwlike:
+            return self.rng.choice(KWLIKE_LOWER)
         while True:
             n = self.rng.choice(pool)
             if n not in RESERVED:
@@ -649,7 +671,17 @@ class Gen:
         k = rng.randint(0, n) if rng.random() < self.cfg.p_default else 0
         for i in range(n):
             d = self.gen_default() if i >= n - k else None
-            args.append(Arg(self.gen_ty(tparams=tparams), names[i], d))
+            ty = self.gen_ty(tparams=tparams)
+            twins = [a.ty for a in args if a.ty.params]
+            if twins and self.cfg.p_twin_arg and rng.random() < self.cfg.p_twin_arg:
+                # the same container with the same arguments, another qualifier on one inner argument
+                ty = copy.deepcopy(rng.choice(twins))
+                inner = rng.choice(ty.params)
+                if rng.random() < 0.5:
+                    inner.const = not inner.const
+                else:
+                    inner.suffix = rng.choice([x for x in ['', '*', '@', '&'] if x != inner.suffix])
+            args.append(Arg(ty, names[i], d))
         return args
 
     # --- templates
@@ -909,10 +941,24 @@ def gen_module_inst(g: Gen, n_typedefs=None, p_bad_arity=0.03, p_missing=0.03):
     targets = typedef_targets(m)
     spaces = list(walk_namespaces(m))
     if n_typedefs is None:
-        n_typedefs = rng.randint(0, 4)
+        n_typedefs = g.cfg.n_typedefs if g.cfg.n_typedefs is not None else rng.randint(0, 4)
+    if g.cfg.p_serialize:
+        for _, content in spaces:
+            for d in content:
+                if d.kind == 'cls' and rng.random() < g.cfg.p_serialize and not any(
+                        mb.kind == 'method' and mb.name == 'serialize' for mb in d.cls.members):
+                    d.cls.members.insert(rng.randint(0, len(d.cls.members)),
+                                         Member('method', ret=Ret(Ty([], "void", None, False, '', True)), name="serialize", args=[], const=True))
+    prev = None
     for _ in range(n_typedefs):
         if not targets:
             break
+        if prev is not None and rng.random() < g.cfg.p_dup_typedef:
+            # the same instantiation under a second name (same namespace as the first)
+            g.counter += 1
+            d0, content0 = prev
+            content0.insert(rng.randint(0, len(content0)), Decl('typedef', tn=d0.tn, new_name="%sAlias%d" % (d0.tn.name, g.counter)))
+            continue
         path, name, arity, kind = rng.choice(targets)
         n = arity if arity is not None else rng.choice([1, 2])
         if rng.random() < p_bad_arity:
@@ -927,4 +973,6 @@ def gen_module_inst(g: Gen, n_typedefs=None, p_bad_arity=0.03, p_missing=0.03):
         else:
             _, content = rng.choice(spaces)
         content.insert(rng.randint(0, len(content)), d)
+        if kind != 'func':
+            prev = (d, content)
     return m
